@@ -104,7 +104,11 @@ def stepLine (st : Option World Ã— List String) (line : String) : Option World Ã
       | none => bad
       | some (.recon f) =>
         let (w', o) := step w (.recon f)
-        (some w', out ++ showWorld w' o)
+        -- cross-check of the two models on every generated write-fault-only reconcile: the extended model without read
+        -- faults and events must give the same world, the same writes and as many evictor calls
+        let (wx, ox) := reconcileX w âŸ¨f, 0, []âŸ©
+        let same := decide (wx = w') && decide ((ox.acts.filter fun a => a.k.code < 8) = o.acts) && ox.evicts.length == o.evicts.length
+        (some w', out ++ showWorld w' o ++ (if same then [] else ["models-disagree"]))
       | some op => (some (step w op).1, out)
     | _, _ => bad
   | [] => bad
